@@ -49,6 +49,9 @@ def run_history(h, ctx, farmer=None):
     loc = os.path.join(d, '.xyz-t')
     crop, obs = None, []
     sz = sweeps.sizes(sorted_sweep(sw))
+    stale0 = None
+    if any(op['op'] == 'stalequery' for op in h['ops']):
+        with quiet(): stale0 = xyz.Crop(name='t', parent_dir=d)      # a handle made before anything is sown
     try:
         for op in h['ops']:
             k = op['op']
@@ -104,12 +107,14 @@ def run_history(h, ctx, farmer=None):
                             fh.write(b'\x80partial')
                     elif k == 'checkbad':
                         o = {'bad': sorted(int(x) for x in crop.check_bad())}
-                    elif k == 'query':
-                        o = {'sown': crop.num_sown_batches, 'results': crop.num_results,
-                             'ready': bool(crop.is_ready_to_reap())}
-                        try: o['missing'] = list(crop.missing_results())
+                    elif k in ('query', 'stalequery'):
+                        import copy
+                        cq = crop if k == 'query' else copy.copy(stale0)
+                        o = {'sown': cq.num_sown_batches, 'results': cq.num_results,
+                             'ready': bool(cq.is_ready_to_reap())}
+                        try: o['missing'] = list(cq.missing_results())
                         except Exception as e: o['missing'] = {'err': 'fail', 'exc': type(e).__name__}
-                        m = re.search(r'(-?\d+) / (\S+) batches of size', str(crop))
+                        m = re.search(r'(-?\d+) / (\S+) batches of size', str(cq))
                         ent_str = [m.group(1), m.group(2)] if m else None
                     elif k == 'reap':
                         kw = {}
@@ -122,7 +127,7 @@ def run_history(h, ctx, farmer=None):
                 if isinstance(e, RuntimeError) and 'unknown op' in str(e): raise
                 o = {'err': classify(e, reap=(k == 'reap')), 'exc': type(e).__name__, 'msg': str(e)[:120]}
             ent = {'o': o, 'ls': ls(loc)}
-            if k == 'query':
+            if k in ('query', 'stalequery'):
                 ent['str'] = locals().get('ent_str')
             if k == 'sow' and o is None:
                 ent['batches'] = read_batches(loc, sorted_sweep(sw))
